@@ -21,7 +21,9 @@ pub fn analyze_rows(egraph: &EGraph, enode: &Expr) -> Rows {
             .map_or(f32::MAX, |x| x as f32)
     };
     let list_len = |id: &Id| egraph[*id].as_list().len();
-    match enode {
+    // The estimate of a many-way join over large tables overflows f32. An infinite estimate turns
+    // into NaN costs (inf * 0, inf - inf) that the extractor cannot compare: keep it finite.
+    let rows = match enode {
         // for plan nodes, the result represents estimated rows
         Values(v) => v.len() as f32,
         Scan([tid, _, _]) => {
@@ -46,7 +48,7 @@ pub fn analyze_rows(egraph: &EGraph, enode: &Expr) -> Rows {
         },
         HashJoin([t, on, lkey, rkey, l, r]) | MergeJoin([t, on, lkey, rkey, l, r]) => {
             if let Semi | Anti = egraph[*t].nodes[0] {
-                return x(l) * x(on) * 0.5f32.powi(list_len(lkey) as i32);
+                return (x(l) * x(on) * 0.5f32.powi(list_len(lkey) as i32)).min(f32::MAX);
             }
             let contains_primary_key = |list: &Id| {
                 let catalog = &egraph.analysis.catalog;
@@ -96,7 +98,8 @@ pub fn analyze_rows(egraph: &EGraph, enode: &Expr) -> Rows {
         Exists(_) => 0.5,
 
         _ => 1.0,
-    }
+    };
+    rows.min(f32::MAX)
 }
 
 const DEFAULT_ROW_COUNT: u32 = 1000;
